@@ -600,6 +600,31 @@ def tr_balance_filters(tree):
     return "\n".join(out)
 
 
+def tr_matrix_balance_pins(tree):
+    """the balance branches of api.matrix: which slices the weights come from, the reciprocal for divisive weights and the
+    ORDER of the float multiplications (the binary64 model of C12 reproduces exactly this order)"""
+    m = ast.unparse(find(tree, "matrix"))
+    blocks = {
+        "pixels": "        if balance:\n            weights = Cooler(h5).bins()[[name]]\n            df2 = annotate(df, weights, replace=False)\n"
+                  "            if divisive_weights:\n                df2[name + '1'] = 1 / df2[name + '1']\n                df2[name + '2'] = 1 / df2[name + '2']\n"
+                  "            df['balanced'] = df2[name + '1'] * df2[name + '2'] * df2[field]\n",
+        "sparse": "        if balance:\n            weights = h5['bins'][name]\n            bias1 = weights[i0:i1]\n            bias2 = bias1 if (i0, i1) == (j0, j1) else weights[j0:j1]\n"
+                  "            if divisive_weights:\n                bias1 = 1 / bias1\n                bias2 = 1 / bias2\n"
+                  "            mat.data = bias1[mat.row] * bias2[mat.col] * mat.data\n",
+        "dense": "        if balance:\n            weights = h5['bins'][name]\n            bias1 = weights[i0:i1]\n            bias2 = bias1 if (i0, i1) == (j0, j1) else weights[j0:j1]\n"
+                 "            if divisive_weights:\n                bias1 = 1 / bias1\n                bias2 = 1 / bias2\n"
+                 "            arr = arr * np.outer(bias1, bias2)\n",
+    }
+    for k, needle in blocks.items():
+        if needle not in m:
+            raise Unsupported("api.matrix: the balance branch for " + k + " output changed")
+    c = ast.unparse(find(tree, "Cooler.matrix"))
+    for needle in ["if balance in _4DN_DIVISIVE_WEIGHTS and divisive_weights is None:\n        divisive_weights = True"]:
+        if needle not in c:
+            raise Unsupported("Cooler.matrix: divisive default changed")
+    return "Definition matrix_balance_pins : bool := true."
+
+
 ITEMS = [
     ("core/_rangequery.py", "comes_before", lambda t: tr_cmp(t, "_comes_before", "comes_before")),
     ("core/_rangequery.py", "contains", lambda t: tr_cmp(t, "_contains", "contains")),
@@ -614,6 +639,7 @@ ITEMS = [
     ("create/_ingest.py", "validate_pixels_source_pins", tr_validate),
     ("create/_create.py", "create_write_source_pins", tr_create_pins),
     ("_balance.py", "balance_filter_pins", tr_balance_filters),
+    ("api.py", "matrix_balance_pins", tr_matrix_balance_pins),
 ]
 
 
